@@ -26,6 +26,8 @@ pub mod semantic_analysis;
 pub mod source_map;
 pub mod transform;
 pub mod type_system;
+#[cfg(feature = "fuellabs_sway_verif")]
+pub mod verif_hooks;
 
 use crate::decl_engine::DeclEngineGet as _;
 use crate::engine_threading::SpannedWithEngines;
